@@ -4,45 +4,76 @@ import itertools
 
 RULE = ("pools of fragments handed to clone.CircularLigate, and parts handed to clone.GoldenGate (BsaI/BbsI/BtgZI), each in the given "
         "order and in three shuffles: designed assemblies (1..6 junctions, 1..3 alternatives per slot, each fragment supplied in a random "
-        "orientation, dead-end decoys, linear and circular carriers at a random rotation and on a random strand); every pool of <= N "
-        "fragments over three overhangs for three overhang alphabets (plain / with a reverse-complement pair / with a palindrome) "
-        "(exhaustive); pools whose overhangs close cycles that exclude the seed; duplicated fragments; palindromic overhangs; "
-        "self-closing and both-way fragments; random pools. non-trivial = at least two fragments and at least one ring; distinct by case text")
+        "orientation, dead-end decoys; carriers linear or circular, at a random rotation, on a random strand, 20% in lower case, releasing one, "
+        "two or three fragments each, with extra sites whose outer copy is cut away and site pairs that release a piece of backbone; "
+        "inserts up to 500 (thorough: 2000) bases; a 300-base backbone followed by short alternatives and a decoy; one circular carrier at "
+        "EVERY rotation); every pool of <= N fragments over three overhangs for three overhang alphabets (plain / with a "
+        "reverse-complement pair / with a palindrome) (exhaustive); pools whose overhangs close cycles that exclude the seed (<= 6 "
+        "fragments, 10 s deadline per call); duplicated fragments; palindromic overhangs; self-closing and both-way fragments; random "
+        "pools. The verdict is decided from the pool (Spec.Rings.designed), not from the generator's label. non-trivial = at least two "
+        "fragments and at least one ring; distinct by case text")
 EXHAUSTIVE = {"quick": False, "thorough": True}
 TRUSTED_BASE = ["the key of the collector is modelled as the canonical form that is hashed (least rotation of the lesser strand); "
                 "BLAKE3 is collision-free on the constructs of one call (assumption, cf. C05)",
                 "C09 is stated over the arg-min least rotation, i.e. modulo C12",
-                "Go scheduler and memory model: the Step system of Model/Ligate.lean (unbuffered channel, WaitGroup, close after Wait) "
-                "stands for the runtime; data races are outside it and are left to the -race runs",
+                "the goroutine system Sys/Step of Model/Ligate.lean is transcribed BY HAND from clone.go lines 264-343 (one goroutine per "
+                "recursion node, wg.Add before go, deferred wg.Done, unbuffered channel, collector started after the launch loop, close after "
+                "Wait); nothing extracts this structure from the source, so a change of the concurrency structure is visible only to the "
+                "GOMAXPROCS / -race runs; data races are outside the model",
                 "CutWithEnzymeByName is a parameter of the GoldenGate model (C10); GoldenGate = CircularLigate on the concatenated cuts is "
-                "checked at implementation level on every gg case"]
-ASSUMPTIONS = ["fragments and parts are upper-case ACGT", "a duplicated fragment value denotes the same fragment species (a ring uses a value at most once)"]
-PARTIAL = ["ligate_complete: 'none missing' is proved for SIMPLE rings (junction overhangs pairwise distinct and non-palindromic, every "
-           "fragment in either orientation) — all rings of a designed assembly; for closed chains with a repeated or palindromic "
-           "junction overhang only soundness is claimed (the code returns some of them, see notes/findings/C09.md observations A, B)",
+                "checked at implementation level on every gg case (model run on the real cuts; real cuts compared with an independent layout)"]
+ASSUMPTIONS = ["fragments and parts are ACGT (parts in either case; CutWithEnzyme upper-cases them)",
+               "a duplicated fragment value denotes the same fragment species (a ring uses a value at most once)",
+               "junction overhangs are not self-complementary (palindromic). Derived from the property's premise 'parts whose enzyme-cut "
+               "overhangs chain into one or more rings' read as Golden Gate designs: a palindromic overhang ligates to itself in either "
+               "orientation, so it does not chain fragments into a designed ring, and Golden Gate overhang sets exclude palindromes. Outside this "
+               "assumption the result of the real code depends on the strand a fragment is written on "
+               "(CircularLigate([{ACC,AATG,AATT},{GGT,CATT,AATT}]) returns 0 constructs, the same tube with the second fragment on its other "
+               "strand returns 1): recorded in notes/findings/C09.md, classes '+pal' / 'missing-ring:pal'",
+               "'exactly' is claimed as an equality for designed assemblies (Spec.Rings.designed: ACGT, no self-complementary overhang, among "
+               "the oriented fragments that are not dead ends the forward overhang determines the reverse overhang); for every pool the exact "
+               "set returned is characterised by ligate_exact (rings closed at the first return to the seed's forward overhang)"]
+PARTIAL = ["ligate_complete ('none missing') is proved for SIMPLE rings (junction overhangs pairwise distinct and non-palindromic, every fragment "
+           "in either orientation). A designed assembly also has non-simple rings (multi-lap concatemers of alternatives: a strict 2x2 design "
+           "has 6 rings, 4 simple); ligate_designed proves that on designed pools exactly the simple rings are returned, each once, so the "
+           "concatemers are NOT returned (and the judge forbids them). On other pools the code returns some non-simple closed chains and "
+           "not others (ligate_exact says which; notes/findings/C09.md observations A, B)",
            "ligate_unique: proved for the canonical-form key (key_eq_iff: equal key <=> same molecule); the step from the key to the "
            "BLAKE3 hash the code compares is hash_eq_iff_key_eq under an explicit no-collision hypothesis",
-           "ligate_schedule / ligate_terminates: theorems about ALL runs of the Step system (Model/Ligate.lean); data races and "
-           "scheduler fairness are not expressible there and are covered only by the GOMAXPROCS 1/2/16 and -race runs"]
+           "ligate_schedule / ligate_terminates: theorems about ALL runs of the hand-transcribed Step system (Model/Ligate.lean), bounded "
+           "by a variant (no fairness needed); only 'delivered => permutation of the sends' is proved, not that every permutation "
+           "occurs; data races are not expressible and are covered only by the GOMAXPROCS 1/2/16 and -race runs (a sample of the cases, "
+           "20 repetitions each, in both tiers; the 6x3 library under -race in the thorough tier)",
+           "termination on the real code is observed under a 10 s deadline on cyclic pools of <= 6 fragments (the recursion tree is "
+           "factorial in the pool size); beyond that it is proved for the model only"]
 TECHNIQUE = ("Lean 4 proof about a model of the spawn tree and of the goroutine system (invariant + variant over all interleavings); "
-             "independent ring spec; differential correspondence incl. GOMAXPROCS variants and the race detector")
-LEVEL_TEXT = ("All six clauses are kernel-checked theorems about the model for pools of every size (Props/C09): ligate_sound (every construct "
-              "sent is, letter for letter, the molecule of a closed chain of distinct oriented pool fragments starting at the seed), "
-              "ligate_complete (every simple ring has its molecule up to rotation/strand in the result; rings traversed only by flipped "
-              "fragments are found from the other strand), ligate_unique (+ key_eq_iff: equal key <=> same molecule), ligate_order (the "
-              "multiset sent and the key set returned are invariant under permutation of the pool), ligate_schedule (over every interleaving "
-              "of the goroutine system: nothing sent on a closed channel, close after the last send, every maximal run delivers a permutation "
-              "of all sends, same key set), ligate_terminates (fuel never exhausted, depth <= |pool|, every run bounded by a variant). The "
-              "model is tied to clone.CircularLigate / clone.GoldenGate by correspondence on every generated pool in four input orders, "
-              "compared as sets of canonical forms computed in Lean from the returned sequences; every real result is judged against an "
-              "independent enumeration of the rings (equality with the simple rings for designed assemblies), GoldenGate additionally against "
-              "the designed fragments and as CircularLigate of the real cuts.")
-LEVEL_NOTE = ("Trusted: Lean kernel; harness + driver; the Go runtime is represented by an interleaving semantics (races, scheduler "
-              "fairness not expressible: covered only by GOMAXPROCS 1/2/16 and -race runs); BLAKE3 collision-freeness; C12 for the least rotation.")
+             "independent ring spec with a decidable 'designed assembly' predicate; differential correspondence incl. GOMAXPROCS variants "
+             "and the race detector")
+LEVEL_TEXT = ("Kernel-checked theorems about the model for pools of every size (Props/C09): ligate_exact (a construct is sent IFF it is, letter "
+              "for letter, the molecule of a ring that starts with a pool fragment as supplied, does not return to that fragment's forward "
+              "overhang before closing, and flips fragments only onto non-palindromic overhangs), ligate_designed + ligate_designed_once (on a "
+              "designed assembly the returned molecules are EXACTLY those of the simple rings = the designed plasmids, each exactly once — "
+              "multi-lap concatemers of alternatives, which are rings too, are not returned), ligate_sound / ligate_complete (any DNA pool: "
+              "result within all rings, containing all simple rings; rings traversed only by flipped fragments are found from the other "
+              "strand), ligate_unique (+ key_eq_iff: equal key <=> same molecule), ligate_order (multiset sent and key set returned invariant "
+              "under permutation of the pool), ligate_schedule (every interleaving of the Step system: nothing sent on a closed channel, close "
+              "after the last send, every maximal run delivers a permutation of all sends, same key set), ligate_terminates (fuel never "
+              "exhausted, depth <= |pool|, every run bounded by a variant). The model is tied to clone.CircularLigate / clone.GoldenGate by "
+              "correspondence on every generated pool in four input orders, compared as sets of canonical forms computed in Lean from the "
+              "returned sequences; every real result is judged against an independent enumeration of the rings — equality with the simple "
+              "rings whenever the pool is a designed assembly (decided from the pool), simple <= result <= all otherwise —, the Circular flag "
+              "of every returned part, GoldenGate additionally against an independent layout of the parts (several fragments per carrier, extra "
+              "sites, every rotation of a circular carrier) and as CircularLigate of the real cuts.")
+LEVEL_NOTE = ("Trusted: Lean kernel; harness + driver; the Go runtime is represented by an interleaving semantics transcribed by hand from "
+              "clone.go 264-343 (races not expressible; a change of the goroutine structure is seen only by the GOMAXPROCS 1/2/16 and -race "
+              "runs on a sample of cases, 20 repetitions each); BLAKE3 collision-freeness; C12 for the least rotation. Palindromic junction "
+              "overhangs are excluded by assumption. After three calls that do not return within the deadline the harness stops executing the "
+              "remaining cases of the run (they are reported as not run, the three timeouts are the failing inputs).")
 HARNESS_BIN = "run-clone"
 EXTRACT_BINS = []
-TIMEOUT_MS = 20000
+TIMEOUT_MS = 10000
 NEEDS_RACE = True
+NEEDS_RACE_QUICK = True
 
 COMP = {"A": "T", "C": "G", "G": "C", "T": "A"}
 ENZ = {"BsaI": ("GGTCTC", 1), "BbsI": ("GAAGAC", 2), "BtgZI": ("GCGATG", 10)}
@@ -144,48 +175,141 @@ def small_pools(nmax):
                        " ".join(map(str, ident[1:] + ident[:1])), " ".join(map(str, ident[n // 2:] + ident[:n // 2]))]
 
 
-def gg_case(r, tag, enz, ring, extra, rawparts=0):
+def seg_insert(r, frag, skip, fl=None):
+    """layout segment for one designed fragment (seq, fwd, rev)"""
+    if fl is None:
+        fl = 1 if r.random() < 0.5 else 0
+    return "i:%s/%s/%s/%d/%s/%s" % (frag[0], frag[1], frag[2], fl, randword(r, ACGT, skip), randword(r, ACGT, skip))
+
+
+def layout_body(enz, segs):
+    """mirror of Driver/C09.lean `layout`: the unrotated top-strand text and the number of forward / reverse sites"""
     site, skip = ENZ[enz]
     rsite = rc(site)
-    avoid = (site, rsite)
+    body, nf, nr = "", 0, 0
+    for seg in segs:
+        kind, _, spec = seg.partition(":")
+        if kind == "p":
+            body += spec
+        elif kind == "F":
+            body += site; nf += 1
+        elif kind == "R":
+            body += rsite; nr += 1
+        else:
+            s, f, v, fl, sp1, sp2 = spec.split("/")
+            ff = flip((s, f, v)) if fl == "1" else (s, f, v)
+            body += site + sp1 + ff[1] + ff[0] + ff[2] + sp2 + rsite
+            nf += 1; nr += 1
+    return body, nf, nr
 
-    def count(w, circ):
-        ww = w + w[:len(site) - 1] if circ else w
-        return (sum(1 for i in range(len(ww) - 5) if ww[i:i + 6] == site), sum(1 for i in range(len(ww) - 5) if ww[i:i + 6] == rsite))
 
+def site_count(enz, w, circ):
+    site = ENZ[enz][0]
+    rsite = rc(site)
+    ww = w + w[:len(site) - 1] if circ else w
+    return (sum(1 for i in range(len(ww) - 5) if ww[i:i + 6] == site), sum(1 for i in range(len(ww) - 5) if ww[i:i + 6] == rsite))
+
+
+def part_item(r, enz, segs, shape=None, rot=None, pflip=None, lc=None):
+    """`shape,rot,pflip,lc,segs` or None when the layout contains an accidental recognition site"""
+    body, nf, nr = layout_body(enz, segs)
+    if shape is None:
+        shape = r.choice("CL")
+    if shape == "C" and len(body) == 0:
+        return None
+    if site_count(enz, body, shape == "C") != (nf, nr):
+        return None
+    if rot is None:
+        rot = r.randrange(0, len(body)) if shape == "C" else 0
+    if pflip is None:
+        pflip = 1 if r.random() < 0.5 else 0
+    if lc is None:
+        lc = 1 if r.random() < 0.2 else 0
+    return "%s,%d,%d,%d,%s" % (shape, rot, pflip, lc, "+".join(segs))
+
+
+def carrier_segs(r, enz, frags, extra_sites=True, padmax=30):
+    """segments of one carrier releasing the fragments `frags` (one or more inserts; sometimes an extra forward site
+    upstream or an extra reverse site downstream — the outer site is cut away with the flank; sometimes a site pair
+    that releases a piece of the backbone itself)"""
+    site, skip = ENZ[enz]
+    avoid = (site, rc(site))
+    pad = lambda lo, hi: "p:" + seqword(r, lo, hi, avoid)
+    segs = [pad(0, padmax)]
+    if extra_sites and r.random() < 0.15:
+        segs += ["F:", pad(12 + 2 * skip, 30 + 2 * skip)]
+    for i, f in enumerate(frags):
+        if i > 0:
+            segs.append(pad(0, padmax))
+        segs.append(seg_insert(r, f, skip))
+    if extra_sites and r.random() < 0.15:
+        segs += [pad(12 + 2 * skip, 30 + 2 * skip), "R:"]
+    if extra_sites and r.random() < 0.08:
+        segs += [pad(4, 20), "F:", pad(12 + 2 * skip, 40 + 2 * skip), "R:"]
+    segs.append(pad(10 + 2 * skip, padmax + 10 + 2 * skip))
+    return segs
+
+
+def gg_case(r, tag, enz, ring, extra, rawparts=0, multi=0.0, force=None):
+    """one carrier per fragment; with probability `multi` two or three fragments share a carrier"""
+    site, skip = ENZ[enz]
+    avoid = (site, rc(site))
+    frags = list(ring + extra)
+    r.shuffle(frags)
+    groups = []
+    while frags:
+        n = 1
+        if r.random() < multi:
+            n = r.choice([2, 2, 3])
+        groups.append(frags[:n]); frags = frags[n:]
     items = []
-    for (s, f, v) in ring + extra:
+    for g in groups:
         for _ in range(100):
-            fl = 1 if r.random() < 0.5 else 0
-            shape = r.choice("CL")
-            padL, padR = seqword(r, 0, 30, avoid), seqword(r, 0, 30, avoid)
-            if shape == "C":
-                padL = seqword(r, 10, 60, avoid)
-            sp1, sp2 = randword(r, ACGT, skip), randword(r, ACGT, skip)
-            pflip = 1 if r.random() < 0.5 else 0
-            ff = flip((s, f, v)) if fl else (s, f, v)
-            insert = site + sp1 + ff[1] + ff[0] + ff[2] + sp2 + rsite
-            if shape == "C":
-                body = insert + padL + padR
-                rot = r.randrange(0, len(body))
-                k = rot % len(body)
-                body = body[k:] + body[:k]
-            else:
-                body = padL + insert + padR
-                rot = 0
-            part = rc(body) if pflip else body
-            if count(part, shape == "C") == (1, 1):
-                items.append("%s,%s,%s,%d,%s,%s,%s,%s,%s,%d,%d" % (s, f, v, fl, shape, padL, padR, sp1, sp2, rot, pflip))
-                break
+            it = part_item(r, enz, carrier_segs(r, enz, g), **(force or {}))
+            if it:
+                items.append(it); break
         else:
             return None
     for _ in range(rawparts):
-        items.append("%s,%s" % (seqword(r, 8, 40, avoid) if True else "", r.choice("CL")))
-    r.shuffle(items)
-    for it in items:
-        if len(it.split(",")) == 2 and count(it.split(",")[0], it.split(",")[1] == "C") != (0, 0):
+        it = part_item(r, enz, ["p:" + seqword(r, 8, 40, avoid)])
+        if it is None:
             return None
+        items.append(it)
+    r.shuffle(items)
     return ["gg", tag, enz, ";".join(items)] + perms(r, len(items))
+
+
+def rotation_sweep(r, enz, tag, pflip):
+    """a two-part assembly whose first part is a circular carrier, supplied at EVERY rotation (also inside the sites)"""
+    site, skip = ENZ[enz]
+    avoid = (site, rc(site))
+    while True:
+        ohs = overhangs(r, 2)
+        a = (seqword(r, 3, 10, avoid), ohs[0], ohs[1])
+        b = (seqword(r, 3, 10, avoid), ohs[1], ohs[0])
+        segs = [seg_insert(r, a, skip, 0), "p:" + seqword(r, 12, 25, avoid)]
+        body, nf, nr = layout_body(enz, segs)
+        other = part_item(r, enz, ["p:" + seqword(r, 2, 8, avoid), seg_insert(r, b, skip, 0), "p:" + seqword(r, 12 + 2 * skip, 20 + 2 * skip, avoid)],
+                          shape="L", pflip=0, lc=0)
+        if other and site_count(enz, body, True) == (1, 1):
+            break
+    for rot in range(len(body)):
+        it = part_item(r, enz, segs, shape="C", rot=rot, pflip=pflip, lc=0)
+        yield ["gg", tag, enz, it + ";" + other, "1 0", "0 1", "1 0"]
+
+
+def behind_backbone(r, avoid=(), backbone=300):
+    """a long fragment followed by short alternatives: >= 2 candidates at a junction at depth >= 2, plus a decoy that
+    shares a forward overhang with a real fragment"""
+    ohs = overhangs(r, 5)
+    A, B, C, D = ohs[:4]
+    ring = [(seqword(r, backbone, backbone + 40, avoid), A, B)]
+    for _ in range(r.randint(2, 3)):
+        ring.append((seqword(r, 20, 50, avoid), B, C))
+    for _ in range(r.randint(1, 2)):
+        ring.append((seqword(r, 20, 50, avoid), C, A))
+    extra = [(seqword(r, 25, 45, avoid), C, ohs[4])]
+    return ring, extra
 
 
 def cases(seed, tier):
@@ -220,6 +344,9 @@ def cases(seed, tier):
             ring, extra = design(r, min(k, 4), 2, strict=False, decoys=r.choice([0, 1]), budget=60)
             ring = ring[:7]
         yield lig_case(r, "design" if strict else "design-loose", with_flips(r, ring + extra))
+    # a 3-junction, 2-alternative library (also run under the race detector in the quick tier)
+    ohs = overhangs(r, 3)
+    yield lig_case(r, "lib-3x2", with_flips(r, [(seqword(r, 2, 10), ohs[j], ohs[(j + 1) % 3]) for j in range(3) for _ in range(2)]))
     # the largest library shape the property names
     if not quick:
         for _ in range(3):
@@ -265,8 +392,19 @@ def cases(seed, tier):
         m = r.randint(1, 6 if len(ohs) > 2 else 5)
         frags = [(seqword(r, 0, 6), r.choice(ohs), r.choice(ohs)) for _ in range(m)]
         yield lig_case(r, "random", with_flips(r, frags, 0.3))
+    # --- a long backbone followed by short alternatives and a decoy (construct buffers must not be shared)
+    for i in range(6 if quick else 60):
+        ring, extra = behind_backbone(r)
+        yield lig_case(r, "backbone", with_flips(r, ring + extra, 0.2))
+    # --- long inserts
+    for i in range(6 if quick else 80):
+        k = r.randint(2, 4)
+        ohs = overhangs(r, k)
+        hi = 500 if quick or i % 8 else 2000
+        ring = [(seqword(r, 50 if hi == 500 else 200, hi), ohs[j], ohs[(j + 1) % k]) for j in range(k) for _ in range(r.randint(1, 2))]
+        yield lig_case(r, "long", with_flips(r, ring))
     # --- GoldenGate path
-    made, want = 0, (60 if quick else 600)
+    made, want = 0, (70 if quick else 700)
     while made < want:
         enz = r.choice(list(ENZ))
         site = ENZ[enz][0]
@@ -278,9 +416,34 @@ def cases(seed, tier):
         else:
             ring, extra = design(r, min(k, 4), 2, strict=False, decoys=r.choice([0, 1]), avoid=(site, rc(site)), budget=60)
             ring = ring[:7]
-        c = gg_case(r, "design" if strict else "design-loose", enz, ring, extra, rawparts=r.choice([0, 0, 1]))
+        c = gg_case(r, "design" if strict else "design-loose", enz, ring, extra, rawparts=r.choice([0, 0, 1]),
+                    multi=r.choice([0.0, 0.0, 0.4, 1.0]))
         if c:
             made += 1
+            yield c
+    # long inserts and a backbone-first assembly through the public API
+    made, want = 0, (8 if quick else 80)
+    while made < want:
+        enz = r.choice(list(ENZ))
+        site = ENZ[enz][0]
+        avoid = (site, rc(site))
+        if made % 2:
+            ring, extra = behind_backbone(r, avoid)
+            tag = "backbone"
+        else:
+            k = r.randint(2, 4)
+            ohs = overhangs(r, k)
+            hi = 500 if quick or made % 10 else 2000
+            ring = [(seqword(r, 50, hi, avoid), ohs[j], ohs[(j + 1) % k]) for j in range(k) for _ in range(r.randint(1, 2))]
+            extra, tag = [], "long"
+        c = gg_case(r, tag, enz, ring, extra, multi=r.choice([0.0, 0.5]))
+        if c:
+            made += 1
+            yield c
+    # circular carriers at every rotation
+    sweeps = [("BsaI", 0)] if quick else [(e, pf) for e in ENZ for pf in (0, 1)]
+    for enz, pf in sweeps:
+        for c in rotation_sweep(r, enz, "rotation", pf):
             yield c
     # --- outside the quantifier (correspondence only): lower case, IUPAC, invalid letters, unknown enzyme, empty pool
     yield ["lig", "empty", "", "", "", ""]
@@ -289,7 +452,7 @@ def cases(seed, tier):
     yield ["lig", "ood-iupac", "ANC,AATG,GCTT,0;GGT,GCTT,AATG,0", "1 0", "0 1", "1 0"]
     yield ["lig", "ood-invalid-letters", "AXC,AATG,AATG,0;GJT,GCTT,GCTT,0;ACG,CCGA,CCGA,0", "2 1 0", "1 0 2", "1 2 0"]
     yield ["lig", "ood-nonascii", "A\u017fC,AATG,AATG,0;G\u017fC,CCGA,CCGA,0", "1 0", "0 1", "1 0"]
-    yield ["gg", "ood-enzyme", "EcoRI", "ACGTACGTAC,L", "0", "0", "0"]
+    yield ["gg", "ood-enzyme", "EcoRI", "L,0,0,0,p:ACGTACGTAC", "0", "0", "0"]
 
 
 def _tag(line):
@@ -307,23 +470,33 @@ def _nfrag(line):
 
 
 def extra_runs(seed, tier, case_lines):
-    """the same cases at GOMAXPROCS 1 / 2 / 16 (the main run uses the default), several times; under the race detector in the
-    thorough tier.  Every case executes the call four times (four input orders), so 5 repetitions = 20 executions."""
+    """the same cases at GOMAXPROCS 1 / 2 / 16 (the main run uses the default), and under the race detector — in BOTH tiers.
+    A repetition is the same case line again (every case line executes the call on four input orders, the first of them
+    the given order, so n repetitions of a line = n executions of the identical input plus 3n on its shuffles)."""
+    import os
     r = rng(seed, "C09-extra")
-    pick = [l for l in case_lines if not _tag(l)[1].startswith(("ood", "small"))]
+    pick = [l for l in case_lines if not _tag(l)[1].startswith(("ood", "small", "design-6x3"))]
     small = [l for l in case_lines if _tag(l)[1].startswith("small")]
+    by_tag = lambda t: [l for l in case_lines if _tag(l)[1] == t]
+    logdir = os.path.join(os.path.dirname(os.path.dirname(os.path.abspath(__file__))), "build", "C09")
+    race_env = lambda g: {"GOMAXPROCS": g, "GORACE": "log_path=%s/race-report exitcode=0" % logdir}
+    # the race detector dies beyond 8128 simultaneously live goroutines: moderate pools only (the 6x3 library, 4374
+    # blocked senders, still fits and is run separately in the thorough tier)
+    moderate = [l for l in pick if _nfrag(l) <= 9 and len(l) < 4000]
     if tier == "quick":
         sub = r.sample(pick, min(40, len(pick))) + r.sample(small, min(20, len(small)))
         for g in ("1", "2", "16"):
             yield ("gomaxprocs" + g, sub, {"GOMAXPROCS": g}, False)
+        handful = by_tag("lib-3x2")[:1] + by_tag("backbone")[:1] + by_tag("cycle")[:1] + \
+            [l for l in moderate if l.startswith("gg")][:2] + r.sample(small, min(2, len(small)))
+        for g in ("1", "2", "16"):
+            yield ("race" + g, handful * 20, race_env(g), True)
     else:
         sub = r.sample(pick, min(300, len(pick))) + r.sample(small, min(100, len(small)))
         for g in ("1", "2", "16"):
             yield ("gomaxprocs" + g, sub * 3, {"GOMAXPROCS": g}, False)
-        # the race detector dies beyond 8128 live goroutines: keep to moderate pools
-        rsub = [l for l in pick if _nfrag(l) <= 9]
-        rsub = r.sample(rsub, min(60, len(rsub))) + r.sample(small, min(20, len(small)))
-        import os
-        logdir = os.path.join(os.path.dirname(os.path.dirname(os.path.abspath(__file__))), "build", "C09")
+        rsub = by_tag("lib-3x2")[:1] + r.sample(moderate, min(60, len(moderate))) + r.sample(small, min(20, len(small)))
+        big = by_tag("design-6x3")
         for g in ("1", "2", "16"):
-            yield ("race" + g, rsub * 5, {"GOMAXPROCS": g, "GORACE": "log_path=%s/race-report exitcode=0" % logdir}, True)
+            yield ("race" + g, rsub * 20, race_env(g), True)
+            yield ("race6x3-" + g, big * 2, race_env(g), True)
